@@ -287,7 +287,8 @@ func Enumerate(tier string, seed int64) []*Schema {
 	msg := func(name string, fs ...Field) *Record {
 		for i := range fs {
 			if fs[i].Index == 0 {
-				fs[i].Index = i + 1
+				// sparse on purpose (1, 3, 4, 6, 7, ...): an index is wire data, not a position
+				fs[i].Index = i + 1 + (i+1)/2
 			}
 		}
 		return &Record{Kind: Message, Name: name, Fields: fs}
